@@ -211,14 +211,14 @@ fn wire(args: &Args, rng: &mut SmallRng) -> i32 {
                 let nodes = (0..nn).map(|i| { let es = es_opts[x % 4]; x /= 4; Node { edge_start: es, program_address: ContentAddress([i as u8 + 1; 32]) } }).collect();
                 let edges = (0..ne).map(|_| { let e = (x % 3) as u16; x /= 3; e }).collect();
                 let p = Predicate { nodes, edges };
-                push(&mut b, format!("pred/s/{nn}/{ne}/{c}"), pred_event(&p));
+                push(&mut b, format!("pred/s/{nn}/{ne}/{c}"), super::guarded(|| pred_event(&p)));
             }
         }
     }
     let count = if args.thorough { 4000 } else { 500 };
     for i in 0..count {
         let p = rand_pred(rng, if i % 20 == 0 { 40 } else { 6 });
-        push(&mut b, format!("pred/r/{i}"), pred_event(&p));
+        push(&mut b, format!("pred/r/{i}"), super::guarded(|| pred_event(&p)));
         // decode arbitrary / mutated bytes
         let mut bytes: Vec<u8> = p.encode().map(|i| i.collect()).unwrap_or_default();
         match rng.gen_range(0..5) {
@@ -229,16 +229,16 @@ fn wire(args: &Args, rng: &mut SmallRng) -> i32 {
             _ => {}
         }
         if bytes.len() <= 600 {
-            push(&mut b, format!("decp/{i}"), decp_event(&bytes));
+            push(&mut b, format!("decp/{i}"), super::guarded(|| decp_event(&bytes)));
         }
     }
     for (nn, ne) in [(999usize, 1usize), (1000, 1000), (1001, 0), (0, 1001), (1000, 1001), (1001, 1001), (0, 0)] {
-        push(&mut b, format!("predbig/{nn}/{ne}"), predbig_event(nn, ne));
+        push(&mut b, format!("predbig/{nn}/{ne}"), super::guarded(|| predbig_event(nn, ne)));
     }
     // mutation lists
     for i in 0..count {
         let ms: Vec<Mutation> = (0..rng.gen_range(0..4)).map(|_| Mutation { key: rvec(rng, 3), value: rvec(rng, 3) }).collect();
-        push(&mut b, format!("muts/{i}"), muts_event(&ms));
+        push(&mut b, format!("muts/{i}"), super::guarded(|| muts_event(&ms)));
     }
     // every word string of length <= 4 (thorough 5) over the boundary alphabet through the decoders
     let alpha = [-1i64, 0, 1, 2, 3, 5, i64::MAX];
@@ -250,7 +250,7 @@ fn wire(args: &Args, rng: &mut SmallRng) -> i32 {
             for a in alpha {
                 let mut t = s.clone();
                 t.push(a);
-                push(&mut b, format!("decm/{:?}", t), decm_event(&t));
+                push(&mut b, format!("decm/{:?}", t), super::guarded(|| decm_event(&t)));
                 next.push(t);
             }
         }
@@ -262,7 +262,7 @@ fn wire(args: &Args, rng: &mut SmallRng) -> i32 {
         let mut enc: Vec<i64> = encode::encode_mutations(&ms).collect();
         let k = rng.gen_range(0..enc.len());
         enc[k] = match rng.gen_range(0..5) { 0 => enc[k].wrapping_add(1), 1 => enc[k].wrapping_sub(1), 2 => 0, 3 => -1, _ => i64::MAX };
-        push(&mut b, format!("decm/pert/{i}"), decm_event(&enc));
+        push(&mut b, format!("decm/pert/{i}"), super::guarded(|| decm_event(&enc)));
     }
     // conversions
     for i in 0..count {
@@ -270,7 +270,7 @@ fn wire(args: &Args, rng: &mut SmallRng) -> i32 {
         for w in ws.iter_mut() {
             *w = match rng.gen_range(0..6) { 0 => rw(rng), 1 => 1i64 << rng.gen_range(0..63), _ => rng.gen() };
         }
-        push(&mut b, format!("conv/{i}"), conv_event(ws));
+        push(&mut b, format!("conv/{i}"), super::guarded(|| conv_event(ws)));
     }
     b.finish(json!({"driver": "codecs", "mode": "wire"}))
 }
